@@ -896,3 +896,7 @@ mod tests {
         assert!(<f16 as ArrowNativeTypeOp>::MAX_TOTAL_ORDER.is_gt(f16::NAN));
     }
 }
+
+#[cfg(kani)]
+#[path = "/verif/kani/arrow-array/arithmetic.rs"]
+mod verif_kani;
